@@ -4,7 +4,7 @@ SAFETY_KINDS = {"overflow", "div-by-zero", "bounds", "precondition", "shift", "a
 
 PROPS = {
     "C06": {
-        "witness_always": ["common_scaled"],
+        "witness_always": ["common_scaled", "texlang_parse_num"],
         "witness_bound": {"common_scaled": "print->scan round trip: ALL 2^16 fractions x 9 integer parts x both signs (display_no_units / parse_no_units on the real code); boundary lattices for the arithmetic functions"},
         "level": "proof",
         "verus": ["common_scaled"],
@@ -50,6 +50,8 @@ PROPS["C20"] = {
 
 
 PROPS["C16"] = {
+    "witness_always": ["dvi_values"],
+    "witness_bound": {"dvi_values": "VarRemover / Values::update: every operation sequence of length <= 5 over 17 templates (4 variables, unbalanced push/pop, page starts, rules, chars), independent position tracker before vs after"},
     "level": "proof",
     "verus": [],
     "kani": ["dvi_codec"],
@@ -119,6 +121,18 @@ PROPS["C11"] = {
     "unverified_callers": [
         "WORD LEVEL ONLY: pl::File::display / from_pl_source_code (text), From<pl::File> for File and back, pack_entrypoints/unpack_entrypoint, table compression - the composition to a byte-for-byte fixed point is NOT decided",
     ],
+    "assumptions": [],
+}
+
+
+PROPS["C15"] = {
+    "level": "other",
+    "verus": [],
+    "kani": [],
+    "witness_always": ["bw_pack"],
+    "witness_bound": {"bw_pack": "every list of <= 3 nodes over 22 node templates (chars incl. missing, rules, kerns, shifted h/v boxes, penalty, glue of all four orders with positive, zero, negative and cancelling amounts) x 9 targets x {exact, additional} = 201k calls of the real HBox::pack against a per-order transcription of TeX.2021.649-667"},
+    "explanation": "BOUNDED STAND-IN, NOT A PROOF. HBox::pack cannot be brought within either verifier's reach: Verus rejects the array/slice patterns the function is written in and the Rc<dyn Whatsit> variant of the node enum; Kani/CBMC did not finish within 15 minutes on the node enum's drop glue even for one-element lists. The contract (natural width = sum of item widths; height/depth = maxima with shifted boxes adjusted; glue order = highest order with non-zero total; ratio fills the box exactly; overfull shrinks by exactly its shrinkability; unset without the needed glue) is evaluated as an executable predicate on an exhaustively enumerated small domain of real calls.",
+    "unverified_callers": ["FontRepo implementations (assumed total)", "lists longer than 3 nodes, Mark/Insertion/Adjust/Math nodes (todo!() in the code)"],
     "assumptions": [],
 }
 
